@@ -122,6 +122,12 @@ func runCheck(prop, tier string) int {
 		}
 		return 2
 	}
+	if len(out.Violations) > 0 {
+		if err := env.confirm(out); err != nil {
+			fmt.Fprintln(os.Stderr, "MACHINERY-ERROR: cannot re-execute violations:", err)
+			return 2
+		}
+	}
 	status := out.report()
 	ev.PropertyID = prop
 	ev.Tier = env.Tier
@@ -173,11 +179,12 @@ func replay(path string) int {
 		return 2
 	}
 	var rec struct {
-		Property string `json:"property"`
-		Clause   string `json:"clause"`
-		History  []Cmd  `json:"history"`
-		Cmd      Cmd    `json:"cmd"`
-		Engine   string `json:"engine"`
+		Property string           `json:"property"`
+		Clause   string           `json:"clause"`
+		Base     []map[string]any `json:"base"`
+		History  []Cmd            `json:"history"`
+		Cmd      Cmd              `json:"cmd"`
+		Engine   string           `json:"engine"`
 	}
 	if err := json.Unmarshal(b, &rec); err != nil {
 		fmt.Fprintln(os.Stderr, err)
@@ -192,7 +199,7 @@ func replay(path string) int {
 		fmt.Fprintln(os.Stderr, err)
 		return 2
 	}
-	obs, _, err := env.driveStates("replay", []emitted{{Hist: rec.History, Alpha: []Cmd{rec.Cmd}}}, false, 1)
+	obs, _, err := env.driveStates("replay", []emitted{{Base: rec.Base, Hist: rec.History, Alpha: []Cmd{rec.Cmd}}}, false, 1)
 	if err != nil {
 		fmt.Fprintln(os.Stderr, err)
 		return 2
